@@ -8,6 +8,53 @@ NOTES = ('Technique: machine-checked proof in Lean 4 over an executable model ti
          'same generated operations; the implementation-side property oracle runs on every generated case. See DESIGN.md.')
 NOT_CLAIMED = {}
 CLAIMS = {
+ 'C02': dict(
+  technique='Lean 4 refinement theorems (dbIter / merged / indexed iterators refine a cursor over the sorted live pairs, for every call sequence) + state-machine differential against the real iterators',
+  text=('14 theorems (Props/C02.lean): for every lawful comparer, every sorted internal entry list, every snapshot sequence and EVERY finite sequence of First/Last/Seek/Next/Prev, DBIter over the raw list equals the '
+        'specification cursor over `visible` (per user key the newest entry at or below the sequence, if a value), with or without a key range; mergedIterator over children with distinct keys and indexedIterator over ordered blocks '
+        'refine the cursor over their union/concatenation; the whole stack does; corollaries: each live pair once in increasing order, Seek lands on the first key >= k, deleted/overwritten entries never surface. '
+        'Tie: thousands of iterator states per run (merged, indexed, DB/snapshot/transaction iterators over multi-level DBs, three comparers, ranges) are driven through random walks on the real code and on the compiled model; '
+        'every answer is also compared with the specification cursor directly on the implementation.'),
+  note='Trusted: Lean kernel; propext, Classical.choice, Quot.sound; harness. Abstracted (differential only): blockIter offset arithmetic, the heap inside mergedIterator, per-table slicing in tFiles.newIndexIterator, error/strict paths, Release.'),
+ 'C05': dict(
+  technique='Lean 4 invariant proofs over an interleaving model of the critical sections (any number of readers/writers) + trace validation of real concurrent runs + linearizability-consequence oracles under stretched windows',
+  text=('20 theorems (Props/C05.lean) over Model/Conc.lean, whose atomic steps are the code\'s critical sections (group insert, publish, rotate, flush install, frozen drop, compaction start/commit, snapshot acquire/release, '
+        'reader seq/mems/version/lookup, transaction open/put/install/publish/discard): pub and hist monotone; cover invariant; every read returns view hist at the pub value of its rSeq step (read_linearizable), for every reachable '
+        'state and any interleaving; one publication step per group (batch_atomic); real_time_order; snapshot_stable / iterator_stable; and explicit counter-example traces for the three reorderings that break it (frozen drop before '
+        'install, version before buffers, transaction over a pending frozen buffer). Tie: concurrent scenarios on the real DB (1-6 writers, readers, snapshot/iterator users, CompactRange, transactions, GOMAXPROCS 1/2/4/16, random '
+        'verif yield points sleeping); the recorded synchronisation events of every second scenario are replayed through the executable step function (each must be enabled); oracles on the implementation: consistent cut in '
+        'snapshots/iterators, no older state after a newer one, monotone reads, acknowledged => visible, nothing from the future.'),
+  note=('Partial: the proof is about interleavings of the modelled atomic steps; that the Go runtime makes those sections atomic (mutexes, sync/atomic) and that no access happens outside them is assumed. '
+        'Reader steps are validated only for their order in the source (hook placement), writer/flush/compaction/transaction steps from the recorded log.')),
+ 'C12': dict(
+  technique='Lean 4 theorems over a byte-exact model of journal.Writer/Reader + CRC32C from the polynomial + regenerated constants + byte-exact differential',
+  text=('14 theorems (Props/C12.lean): decode (all four strict/checksum modes) of encode rs = rs for every record list; the mutable Writer machine refines the functional encoder under any flush pattern and its output only grows; '
+        'encode is append-only; altering one byte changes CRC32C and its mask (crc_single_byte, from injectivity of the table step decided over all 256 entries with decide +kernel); for every truncation offset the reader returns exactly the '
+        'records wholly inside, plus at most one drop (strict: one corruption error); zero tails change nothing in tolerant mode; damage confined to one block whose first altered chunk is rejected loses only records with a chunk in that '
+        'block and invents none. Tie: block/header sizes, chunk codes and the CRC mask expression are regenerated from journal.go/crc32.go; ~18 000 (program, mutation) cases per run compared byte-exactly between journal.Writer/Reader and '
+        'the compiled model incl. truncation sweeps; oracles on the implementation: round trip, prefix under truncation, subsequence + block-locality under damage, no panic.'),
+  note='Partial: multi-position damage and damage to the unchecksummed length bytes are covered under the explicit hypothesis that the altered chunk is rejected (CRC32 is not collision-free); decode_damage_full is kept as an unproved statement.'),
+ 'C13': dict(
+  technique='Lean 4 theorems over a byte-exact model of table.Writer/Reader (blocks, filter block, index, footer) + byte-exact differential and single-byte damage enumeration',
+  text=('10 theorems (Props/C13.lean): block decode(build) = id for every restart interval; block seek = first entry >= key; entries(open(write kvs)) = kvs for every block size/restart interval/filter setting; find/get through index and '
+        'data block incl. the fall-through equal the specification; offsetOf monotone; filter_partition (keys of the block starting at offset o are in the filter selected by o >> baseLg) and filtered find of a stored key never misses '
+        'for a lawful filter; any single-byte alteration of a verified block is rejected by readRawBlock (over an abstract checksum with the single-byte property proved for CRC32C in C12). Tie: format constants regenerated; per run '
+        '200 tables (thorough 4000) compared byte for byte with the real writer, all reader operations compared on both cached and uncached readers, thousands of damaged files.'),
+  note='Partial: snappy is outside the model (compressed blocks are exercised only by the Go-side round-trip oracle in C01/C16); range-restricted iteration is proved only for the unrestricted case (table_range_full kept as a statement) and tied by the differential; blockIter movement arithmetic is abstracted to a cursor (C02).'),
+ 'C16': dict(
+  technique='Lean 4 theorems over a bit-exact model of util.Hash and the bloom filter + regenerated constants/expressions + byte-exact differential; DB programs replayed under different filter settings',
+  text=('9 theorems (Props/C16.lean): bloom_no_false_negative for every bits-per-key and key set whose bit count does not hit the uint32 wrap window (exactly where Generate panics), bloom_lawful, the iFilter wrapper preserves lawfulness, '
+        'k in 1..30; the rotation used by Contains and Generate are the same generated expression (rfl). With C13.table_filtered_find_stored a filtered lookup of a stored key never reports absent. Tie: hash multiplier/shift, bloom seed, '
+        'rotations and k formula are printed from the Go AST; ~29 000 cases per run compare util.Hash, Generate output bytes and Contains with the compiled model; DB programs are replayed under four filter settings and must give identical read transcripts.'),
+  note='Trusted: Lean kernel; propext, Classical.choice, Quot.sound; extractor; harness. A user-supplied filter policy must itself have no false negatives and produce non-empty filters (LawfulFilter, GenNonempty).'),
+ 'C20': dict(
+  technique='Lean 4 noninterference theorem over an ownership model whose copy/alias configuration is read off the Go AST + poisoning differential on the real DB',
+  text=('12 theorems (Props/C20.lean): when every boundary path copies (Cfg.safe), for EVERY program of puts, flushes, gets, iterator reads and caller scribbles over any buffer the caller owns, the outputs equal those of the same program '
+        'without scribbling (noninterference); arguments are not retained; results are private fresh cells; each of the four alias configurations has an explicit violating program (alias_table_get_breaks is defect D9, found and fixed). '
+        'code_safe is decided over facts regenerated from the source on every run: Batch.appendRec and memdb.Put copy, DB.get copies memdb hits, table.Reader.find always copies, dbIter.next/prev copy. Tie: those extracted facts, plus C01-style '
+        'programs on the real DB with poisoning of every argument and result buffer over pool x cache x compression.'),
+  note='Partial: which Go expression aliases which buffer is an AST-level reading (patterns: append([]byte(nil), x...), append(buf[:0], x...), copy(dst, x)); no proof connects it to the compiler\'s view of memory. Batch.Load/Dump documented aliases are outside the property.'),
+
  'C01': dict(
   technique='Lean 4 refinement theorem (lookup = plain map) + trace validation of real runs + plain-map oracle',
   text=('7 theorems (Props/C01.lean): memGet, level-0 (max-seq) lookup, sorted-level lookup, version.get and DB.get each equal `newest`/`view` over all entries for every lawful comparer, every '
